@@ -39,7 +39,7 @@ static int sym_alpha(uint8_t c) {
   return c == '!' || c == '$' || c == '%' || c == '&' || c == '*' || c == '+' || c == '-' || c == '.' || c == '/' || c == ':' || c == '<' || c == '=' || c == '>' || c == '?' || c == '@' || c == '^' || c == '_';
 }
 static Janet mk_sym(JanetType t, const uint8_t *text, int len, uint8_t *copy) {
-  JanetStringHead *h = malloc(sizeof(JanetStringHead) + 4); h->length = len; h->hash = nd_i32(); h->gc.flags = JANET_MEMORY_SYMBOL;
+  JanetStringHead *h = malloc(sizeof(JanetStringHead) + 4); h->length = len; h->hash = nd_i32(); h->gc.flags = 2; /* JANET_MEMORY_SYMBOL (gc.h) */
   for (int i = 0; i < 4; i++) { uint8_t v = i < len ? text[i] : 0; ((uint8_t *) h->data)[i] = v; copy[i] = v; }
   Janet x; x.as.u64 = 0; x.as.pointer = (void *) h->data; x.type = t; return x;
 }
@@ -73,49 +73,69 @@ void h_jdn_symbol_alphabet(void) {
 #ifndef SYMCLASS
 #define SYMCLASS 1
 #endif
-static int pick(uint8_t *t) {        /* chooses the text of the class; returns its length */
-  int len = 0;
-#if SYMCLASS == 1
-  len = nd_int() ? 1 : 2; for (int i = 0; i < 2; i++) { t[i] = nd_u8(); __CPROVER_assume(t[i] >= 'a' && t[i] <= 'z'); }
-#elif SYMCLASS == 2
-  len = nd_int(); __CPROVER_assume(len >= 0 && len <= 2); for (int i = 0; i < 2; i++) { t[i] = nd_u8(); __CPROVER_assume(t[i] < 0x80 && sym_alpha(t[i])); }
-#elif SYMCLASS == 3
-  int w = nd_int(); if (w == 0) { t[0] = 'n'; t[1] = 'i'; t[2] = 'l'; len = 3; } else if (w == 1) { t[0] = 't'; t[1] = 'r'; t[2] = 'u'; t[3] = 'e'; len = 4; } else { t[0] = 'f'; t[1] = 'a'; t[2] = 'l'; t[3] = 's'; t[4] = 'e'; len = 5; }
-#elif SYMCLASS == 4
-  int w = nd_int();
-  if (w == 0) { t[0] = '-'; t[1] = '1'; len = 2; } else if (w == 1) { t[0] = '+'; t[1] = '1'; len = 2; } else if (w == 2) { t[0] = '.'; t[1] = '5'; len = 2; }
-  else if (w == 3) { t[0] = '-'; t[1] = '0'; t[2] = 'x'; t[3] = 'f'; len = 4; } else { t[0] = '-'; t[1] = '2'; t[2] = 'r'; t[3] = '1'; len = 4; }
-#elif SYMCLASS == 5
-  len = nd_int() ? 1 : 2; t[0] = ':'; t[1] = nd_u8(); __CPROVER_assume(t[1] >= 'a' && t[1] <= 'z');
+#if SYMCLASS == 2
+#define RT_TYPE_MSG "a printed keyword reads back as a keyword"
+#define RT_TYPE JANET_KEYWORD
 #else
-  len = 0;
+#define RT_TYPE_MSG "a printed symbol reads back as a symbol - not as nil / true / false, a number or a keyword"
+#define RT_TYPE JANET_SYMBOL
 #endif
-  return len;
+/* classes with symbolic characters (1, 2, 5) hand the reader the accumulated token (tokenchar's own accumulation of symbol characters is
+ * units parse.consumer.tokenchar / root_open) and never reach the number scanner: its stub fails if it is consulted */
+int ps_scan_numeric_stub(const uint8_t *str, int32_t len, Janet *out) { __CPROVER_assert(0, "C11 jdn symbol: harness - the number scanner is not consulted for this class of texts"); return 1; }
+int g_printed, g_refused;
+/* print (real printer), then read (real reader); len is a constant at every call site */
+static void rt(const uint8_t *text, int len, int preload) {
+  ps_setup();
+  JanetStringHead *h = malloc(sizeof(JanetStringHead) + 8); h->length = len; h->hash = nd_i32(); h->gc.flags = 2; /* JANET_MEMORY_SYMBOL (gc.h) */
+  for (int i = 0; i < 8; i++) ((uint8_t *) h->data)[i] = i < len ? text[i] : 0;
+  Janet x; x.as.u64 = 0; x.as.pointer = (void *) h->data; x.type = RT_TYPE;
+  int r = print_jdn_one__entry(&s_S, x, 3);
+  if (r != 0) { g_refused = 1; PS(s_n == 0, "a refused symbol / keyword prints nothing"); return; }
+  g_printed = 1;
+  /* the reader, inside an open ( ... so that the value lands on the argument stack unwrapped */
+  JanetParser p; JanetParseState st[4]; uint8_t buf[12]; Janet args[2];
+  p.args = args; p.argcount = 0; p.argcap = 2; p.pending = 0; p.buf = buf; p.bufcount = 0; p.bufcap = 12;
+  p.states = st; p.statecount = 2; p.statecap = 4; p.error = 0; p.flag = 0; p.lookback = '('; p.line = 1; p.column = 1;
+  st[0].consumer = root; st[0].flags = PFLAG_CONTAINER; st[0].argn = 0; st[0].counter = 0; st[0].line = 1; st[0].column = 0;
+  st[1].consumer = root; st[1].flags = PFLAG_CONTAINER | PFLAG_PARENS; st[1].argn = 0; st[1].counter = 0; st[1].line = 1; st[1].column = 1;
+  if (preload) {
+    PS(s_n >= 1, "harness: a preloaded token is not empty");
+    for (int k = 0; k < 8; k++) if (k < s_n) { PS(s_out[k] < 0x80 && sym_alpha(s_out[k]), "harness: preloaded tokens consist of ASCII symbol characters"); buf[k] = s_out[k]; }
+    p.bufcount = (size_t) s_n;
+    st[2].consumer = tokenchar; st[2].flags = PFLAG_TOKEN; st[2].argn = 0; st[2].counter = 0; st[2].line = 1; st[2].column = 2; p.statecount = 3;
+  } else {
+    for (int k = 0; k < 8; k++) if (k < s_n) janet_parser_consume(&p, s_out[k]);
+  }
+  janet_parser_consume(&p, ' ');
+  PS(p.error == 0, "the printed text is accepted by the reader (no parse error)");
+  PS(p.statecount == 2 && p.argcount == 1, "the printed text reads back as exactly one value");
+  PS(p.argcount == 1 && args[0].type == RT_TYPE, RT_TYPE_MSG);
+  PS(s_sym_calls == 1 && s_sym_len == len, "the value read back is interned from a text of the same length");
+  for (int i = 0; i < 8; i++) if (i < len) PS(s_sym_text[i] == text[i], "the value read back is interned from the same text");
 }
 void h_jdn_symbol_roundtrip(void) {
-  ps_setup();
-  uint8_t text[8]; for (int i = 0; i < 8; i++) text[i] = 0;
-  int len = pick(text);
-  JanetType ty = (SYMCLASS == 2) ? JANET_KEYWORD : JANET_SYMBOL;
-  JanetStringHead *h = malloc(sizeof(JanetStringHead) + 8); h->length = len; h->hash = nd_i32(); h->gc.flags = JANET_MEMORY_SYMBOL;
-  for (int i = 0; i < 8; i++) ((uint8_t *) h->data)[i] = text[i];
-  Janet x; x.as.u64 = 0; x.as.pointer = (void *) h->data; x.type = ty;
-  int r = print_jdn_one__entry(&s_S, x, 3);
-  if (r == 0) {
-    /* the reader, inside an open ( ... so that the value lands on the argument stack unwrapped */
-    JanetParser p; JanetParseState st[4]; uint8_t buf[12]; Janet args[2];
-    p.args = args; p.argcount = 0; p.argcap = 2; p.pending = 0; p.buf = buf; p.bufcount = 0; p.bufcap = 12;
-    p.states = st; p.statecount = 2; p.statecap = 4; p.error = 0; p.flag = 0; p.lookback = '('; p.line = 1; p.column = 1;
-    st[0].consumer = root; st[0].flags = PFLAG_CONTAINER; st[0].argn = 0; st[0].counter = 0; st[0].line = 1; st[0].column = 0;
-    st[1].consumer = root; st[1].flags = PFLAG_CONTAINER | PFLAG_PARENS; st[1].argn = 0; st[1].counter = 0; st[1].line = 1; st[1].column = 1;
-    for (int k = 0; k < 8; k++) if (k < s_n) janet_parser_consume(&p, s_out[k]);
-    janet_parser_consume(&p, ' ');
-    PS(p.error == 0, "the printed text is accepted by the reader (no parse error)");
-    PS(p.statecount == 2 && p.argcount == 1, "the printed text reads back as exactly one value");
-    PS(p.argcount == 1 && args[0].type == ty, (SYMCLASS == 2) ? "a printed keyword reads back as a keyword" : "a printed symbol reads back as a symbol - not as nil / true / false, a number or a keyword");
-    PS(s_sym_calls == 1 && s_sym_len == len, "the value read back is interned from a text of the same length");
-    for (int i = 0; i < 8; i++) if (i < len) PS(s_sym_text[i] == text[i], "the value read back is interned from the same text");
-    __CPROVER_assert(0, "REACH-ANY: jdn symbol: printed and read back");
-  } else __CPROVER_assert(0, "REACH-ANY: jdn symbol: refused by the printer");
+  uint8_t t[8]; for (int i = 0; i < 8; i++) t[i] = 0;
+  g_printed = g_refused = 0;
+#if SYMCLASS == 1
+  for (int i = 0; i < 2; i++) { t[i] = nd_u8(); __CPROVER_assume(t[i] >= 'a' && t[i] <= 'z'); }
+  if (nd_int()) rt(t, 1, 1); else rt(t, 2, 1);
+#elif SYMCLASS == 2
+  for (int i = 0; i < 2; i++) { t[i] = nd_u8(); __CPROVER_assume(t[i] < 0x80 && sym_alpha(t[i])); }
+  int len = nd_int(); if (len == 0) rt(t, 0, 1); else if (len == 1) rt(t, 1, 1); else rt(t, 2, 1);
+#elif SYMCLASS == 3
+  int w = nd_int(); if (w == 0) rt((const uint8_t *) "nil", 3, 0); else if (w == 1) rt((const uint8_t *) "true", 4, 0); else rt((const uint8_t *) "false", 5, 0);
+#elif SYMCLASS == 4
+  int w = nd_int();
+  if (w == 0) rt((const uint8_t *) "-1", 2, 0); else if (w == 1) rt((const uint8_t *) "+1", 2, 0); else if (w == 2) rt((const uint8_t *) ".5", 2, 0);
+  else if (w == 3) rt((const uint8_t *) "-0xf", 4, 0); else rt((const uint8_t *) "-2r1", 4, 0);
+#elif SYMCLASS == 5
+  t[0] = ':'; t[1] = nd_u8(); __CPROVER_assume(t[1] >= 'a' && t[1] <= 'z');
+  if (nd_int()) rt(t, 1, 1); else rt(t, 2, 1);
+#else
+  rt(t, 0, 0);
+#endif
+  if (g_printed) __CPROVER_assert(0, "REACH-ANY: jdn symbol: printed and read back");
+  if (g_refused) __CPROVER_assert(0, "REACH-ANY: jdn symbol: refused by the printer");
   REACH("print_jdn_one returns");
 }
